@@ -168,6 +168,18 @@ func Release(name string) {
 	p.mu.Unlock()
 }
 
+// ReleaseParked releases the goroutines which are parked at the named point
+// now, the point stays armed for the following passages.
+func ReleaseParked(name string) {
+	p := get(name)
+	p.mu.Lock()
+	if p.armed && p.release != nil {
+		close(p.release)
+		p.release = make(chan struct{})
+	}
+	p.mu.Unlock()
+}
+
 // ReleaseAll disarms every point.
 func ReleaseAll() {
 	mu.RLock()
